@@ -54,18 +54,24 @@ def parse_string(
     lexer.addErrorListener(error_listener)
     parser.addErrorListener(error_listener)
 
-    tree = parser.program()
-
-    if error_handler.has_error() is False:
-        visitor = PFDLTreeVisitor(error_handler)
-        process = visitor.visit(tree)
-
-        semantic_error_checker = SemanticErrorChecker(error_handler, process)
-        semantic_error_checker.validate_process()
+    try:
+        tree = parser.program()
 
         if error_handler.has_error() is False:
-            return (True, process)
-        return (False, process)
+            visitor = PFDLTreeVisitor(error_handler)
+            process = visitor.visit(tree)
+
+            semantic_error_checker = SemanticErrorChecker(error_handler, process)
+            semantic_error_checker.validate_process()
+
+            if error_handler.has_error() is False:
+                return (True, process)
+            return (False, process)
+    except RecursionError:
+        # the recursive descent of parser / visitor / checker ran into the interpreter's limit
+        error_handler.print_error(
+            "The program is nested too deeply to be processed", line=1, syntax_error=True
+        )
     return (False, None)
 
 
